@@ -65,7 +65,7 @@ theorem revert_tx_shape (orig : Tx) (inp : RevertInput) (balances : Balances) (t
     tx.timestamp = (if inp.atEffectiveDate then orig.timestamp else orig.revertedAt) ∧
     (inp.atEffectiveDate = false → orig.revertedAt ≠ none) ∧
     tx.id = none ∧ tx.reference = "" ∧ tx.revertedAt = none :=
-  buildRevertTx_shape orig inp balances tx hm h
+  buildRevertTx_shape .current orig inp balances tx hm h
 
 example : (buildRevertTx { id := some 7, postings := [⟨"a", "b", 4, "USD"⟩], timestamp := some 5, revertedAt := some 9 }
              { force := false, atEffectiveDate := false, metadata := [("x", "y")] } [(("b", "USD"), 4)]).toOption.map
@@ -73,40 +73,45 @@ example : (buildRevertTx { id := some 7, postings := [⟨"a", "b", 4, "USD"⟩],
           some ([⟨"b", "a", 4, "USD"⟩], [("com.formance.spec/state/reverts", "7"), ("x", "y")], some 9) := by
   decide
 
-/-- Claim (kept type-checked): a non-forced revert whose inputs come from the store (id and
-    `reverted_at` set; `balances` holding exactly the (destination, asset) pairs of the
-    original transaction) either builds the revert transaction or reports insufficient
-    funds.  FALSE for the real code, see `revert_nonforced_total_counterexample`. -/
-def revert_nonforced_total : Prop :=
+/-- A revert whose inputs come from the store (id and `reverted_at` set; `balances` holding
+    exactly the (destination, asset) pairs of the original transaction, as `GetBalances`
+    returns them) never panics: it builds the revert transaction or reports insufficient funds. -/
+theorem revert_nonforced_total (orig : Tx) (inp : RevertInput) (balances : Balances)
+    (hid : orig.id ≠ none) (hrev : orig.revertedAt ≠ none)
+    (hb : balances.keys = involvedDestinations orig.postings) :
+    buildRevertTx orig inp balances ≠ .error .nilDeref :=
+  buildRevertTx_total orig inp balances hid hrev hb
+
+example : buildRevertTx { id := some 1, postings := [⟨"a", "b", 10, "USD"⟩, ⟨"b", "c", 5, "EUR"⟩], timestamp := some 1, revertedAt := some 2 }
+    { force := false, atEffectiveDate := false, metadata := [] } [(("b", "USD"), 10), (("c", "EUR"), 5)] =
+    .ok { postings := [⟨"c", "b", 5, "EUR"⟩, ⟨"b", "a", 10, "USD"⟩], timestamp := some 2,
+          metadata := [("com.formance.spec/state/reverts", "1")] } := by decide
+
+/-- The same claim for the check as it was before commit fe6217d (kept type-checked; it was
+    FALSE: found by the `reverse` workload, fixed in /repo). -/
+def revert_nonforced_total_preFix : Prop :=
   ∀ (orig : Tx) (inp : RevertInput) (balances : Balances),
     orig.id ≠ none → orig.revertedAt ≠ none →
     balances.keys = involvedDestinations orig.postings →
-    buildRevertTx orig inp balances ≠ .error .nilDeref
+    buildRevertTxV .preFix orig inp balances ≠ .error .nilDeref
 
 /-- Witness: `[a→b 10 USD, b→c 5 EUR]`.  `balances` holds (b,USD) and (c,EUR); undoing the
     second posting credits `b` in EUR — `balances["b"]` exists but `balances["b"]["EUR"]`
-    is a nil `*big.Int` and `Add` dereferences it (reproduced on the real
-    `revertTransaction` by the `reverse` workload). -/
-theorem revert_nonforced_total_counterexample : ¬ revert_nonforced_total := by
+    was a nil `*big.Int` and `Add` dereferenced it. -/
+theorem revert_nonforced_total_preFix_counterexample : ¬ revert_nonforced_total_preFix := by
   intro h
   exact h { id := some 1, postings := [⟨"a", "b", 10, "USD"⟩, ⟨"b", "c", 5, "EUR"⟩], timestamp := some 1, revertedAt := some 2 }
     { force := false, atEffectiveDate := false, metadata := [] }
     [(("b", "USD"), 10), (("c", "EUR"), 5)] (by decide) (by decide) (by decide) (by decide)
 
-/-- What does hold: on store-provided inputs a forced revert never panics, and a non-forced
-    one does not panic when `balances` is closed for the transaction — it has every
-    (destination, asset) pair and, for every posting whose source account appears in it,
-    the (source, asset) pair too (e.g. every single-asset transaction). -/
-theorem revert_nonforced_total_partial (orig : Tx) (inp : RevertInput) (balances : Balances)
+/-- What did hold before the fix: no panic when forced, or when `balances` is closed for the
+    transaction (every (destination, asset) pair and, for every posting whose source account
+    appears in it, the (source, asset) pair too — e.g. every single-asset transaction). -/
+theorem revert_nonforced_total_preFix_partial (orig : Tx) (inp : RevertInput) (balances : Balances)
     (hid : orig.id ≠ none) (hrev : orig.revertedAt ≠ none)
     (hc : inp.force = true ∨ ∀ p ∈ orig.postings, balances.contains p.dstKey = true ∧
             (hasAccount balances p.source = true → balances.contains p.srcKey = true)) :
-    buildRevertTx orig inp balances ≠ .error .nilDeref :=
-  buildRevertTx_no_panic orig inp balances hid hrev hc
-
-example : buildRevertTx { id := some 1, postings := [⟨"a", "b", 10, "USD"⟩, ⟨"b", "c", 5, "USD"⟩], timestamp := some 1, revertedAt := some 2 }
-    { force := false, atEffectiveDate := true, metadata := [] } [(("b", "USD"), 5), (("c", "USD"), 5)] =
-    .ok { postings := [⟨"c", "b", 5, "USD"⟩, ⟨"b", "a", 10, "USD"⟩], timestamp := some 1,
-          metadata := [("com.formance.spec/state/reverts", "1")] } := by decide
+    buildRevertTxV .preFix orig inp balances ≠ .error .nilDeref :=
+  buildRevertTx_preFix_no_panic orig inp balances hid hrev hc
 
 end Ledger.C15
